@@ -53,7 +53,7 @@ Wrap(inner, pos) ==
     [] pos = "L" -> VColl(<<Good1, Good2, inner>>)
 RECURSIVE Build(_, _)
 Build(leaf, p) == IF Len(p) = 0 THEN leaf ELSE Wrap(Build(leaf, Tail(p)), Head(p))
-(* a shape is [shape (id), leaf ("" | "bad" | "nil"), path]; x selects one of the 40 shapes of a kind *)
+(* a shape is [shape (id), leaf ("" | "bad" | "nil" | "tnil"), path]; x selects one of the 40 shapes of a leaf kind *)
 Shape(id) == [shape |-> id, leaf |-> "", path |-> <<>>]
 GenShape(leaf, top, x) ==
   LET n == x % (NPaths + 1)
@@ -70,10 +70,12 @@ FixedShapes ==
    detached |-> VLeaf(Detached),
    mixed    |-> VColl(<<VLeaf(NameEl(2)), VLeaf(I(3)), VLeaf(Family1)>>),
    badTop   |-> VBad,
-   nilTop   |-> VNil]
+   nilTop   |-> VNil,
+   tnilTop  |-> VTNil]
 ShapeValOf(o) ==
   IF o.leaf = "bad" THEN Build(VBad, o.path)
   ELSE IF o.leaf = "nil" THEN Build(VNil, o.path)
+  ELSE IF o.leaf = "tnil" THEN Build(VTNil, o.path)
   ELSE FixedShapes[o.shape]
 
 (* the valid value supplied at position j of a list of length L: every shape occurs in a list whose options all succeed *)
@@ -94,18 +96,27 @@ EName(ks, j) ==
     [] ks[j] = "unsup"  -> "u" \o ToString(j)
     [] ks[j] = "nil"    -> "n" \o ToString(j)
 
-(* a number that identifies the list, used to rotate through the bad shapes *)
-KIdx == [valid |-> 0, dup |-> 1, predef |-> 2, unsup |-> 3, nil |-> 4]
-RECURSIVE Rank(_, _)
-Rank(ks, h) == IF h > Len(ks) THEN 0 ELSE KIdx[ks[h]] + 5 * Rank(ks, h + 1)
+(* A number that identifies (list, position j): the lists in which option j is the only unsupported one - the others *)
+(* being valid, dup or predef - are numbered consecutively (by length, position, then the others as base-3 digits),  *)
+(* so that rotating through the shapes by this number puts every shape into such a list.                            *)
+D3   == [valid |-> 0, dup |-> 1, predef |-> 2, unsup |-> 0, nil |-> 1]
+Pow3 == <<1, 3, 9, 27, 81, 243>>
+Off  == <<0, 1, 7, 34, 142, 547>>       \* Off[L] = sum over l < L of l * 3^(l-1)
+RECURSIVE Others(_, _, _, _)
+Others(ks, j, h, mul) ==
+  IF h > Len(ks) THEN 0
+  ELSE IF h = j THEN Others(ks, j, h + 1, mul)
+  ELSE D3[ks[h]] * mul + Others(ks, j, h + 1, mul * 3)
+ListIdx(ks, j) == Off[Len(ks)] + (j - 1) * Pow3[Len(ks)] + Others(ks, j, 1, 1)
 
 EShape(ks, j) ==
   LET L == Len(ks)
   IN CASE ks[j] = "valid"  -> Shape(ValidAt[L][j])
        [] ks[j] = "dup"    -> Shape(ValidAt[L][(j % L) + 1])      \* another position's value, so an overwrite would show
        [] ks[j] = "predef" -> Shape(ValidAt[L][j])
-       [] ks[j] = "unsup"  -> GenShape("bad", "badTop", Rank(ks, 1) + j)
-       [] ks[j] = "nil"    -> GenShape("nil", "nilTop", Rank(ks, 1) + j)
+       [] ks[j] = "unsup"  -> GenShape("bad", "badTop", ListIdx(ks, j))
+       [] ks[j] = "nil"    -> IF ListIdx(ks, j) % 2 = 0 THEN GenShape("nil", "nilTop", ListIdx(ks, j) \div 2)
+                                                         ELSE GenShape("tnil", "tnilTop", ListIdx(ks, j) \div 2)
 
 EOpts(ks) == [j \in 1..Len(ks) |->
                 LET sh == EShape(ks, j) IN [name |-> EName(ks, j), shape |-> sh.shape, leaf |-> sh.leaf, path |-> sh.path]]
@@ -194,7 +205,8 @@ P(fk, target, focus, ret, prog) ==
 (* The fixed options of the other side. *)
 ProbeOpts == <<[name |-> "pr", fx |-> "well1"]>>
 FixedVars == <<[name |-> "s", shape |-> "str", leaf |-> "", path |-> <<>>],
-               [name |-> "k", shape |-> "int", leaf |-> "", path |-> <<>>]>>
+               [name |-> "k", shape |-> "int", leaf |-> "", path |-> <<>>],
+               [name |-> "c3", shape |-> "strs", leaf |-> "", path |-> <<>>]>>
 
 (* --- programs of an Evaluate list ---------------------------------------- *)
 FirstShape(os, x) ==
@@ -253,6 +265,16 @@ WrongArg(pt) ==
     [] pt = "Integer" -> LitS
     [] OTHER          -> LitS
 Right(sig) == [j \in 1..Len(sig.params) |-> RightArg(sig.params[j])]
+(* a second set of right arguments, so that an outer and an inner call of the same function can be told apart *)
+LitT == Lit(<<S(<<116>>)>>, "'t'")
+Lit4 == Lit(<<I(4)>>, "4")
+LitY == Lit(<<S(<<121>>)>>, "'y'")
+RightArg2(pt) ==
+  CASE pt = "String"    -> LitT
+    [] pt = "Integer"   -> Lit4
+    [] pt = "HumanName" -> This
+    [] OTHER            -> LitY
+Right2(sig) == [j \in 1..Len(sig.params) |-> RightArg2(sig.params[j])]
 
 CFormsFor(g, fx) ==
   LET sig == FxSig[fx]
@@ -284,6 +306,14 @@ CFormsFor(g, fx) ==
          THEN <<P("elemarg", g, fx, "items", Call(g, PFirst, [R EXCEPT ![1] = Field(None, "family")]))>> ELSE <<>>)
      \o (IF np > 0 /\ sig.params[1] = "String"
          THEN <<P("fhirstring", g, fx, "items", Call(g, PFirst, [R EXCEPT ![1] = Field(None, "family")]))>> ELSE <<>>)
+     \* the same function twice in one expression: as the receiver of itself, and re-entrantly inside one of its
+     \* own arguments (on another focus, with other arguments); every invocation's input and arguments are judged
+     \o <<P("chain", g, fx, "echo", Call(g, Call(g, Var("c3"), R), Right2(sig)))>>
+     \o (IF np = 0 THEN <<>>
+         ELSE <<P("selfnest1", g, fx, "first", Call(g, Var("c3"), [Right2(sig) EXCEPT ![1] = Call(g, Var("k"), R)]))>>)
+     \o (IF np < 2 THEN <<>>
+         ELSE <<P("selfnestN", g, fx, "last", Call(g, Var("c3"), [Right2(sig) EXCEPT ![np] = Call(g, Var("k"), R)])),
+                P("selfnestN", g, fx, "items", Call(g, Var("c3"), [Right2(sig) EXCEPT ![np] = Call(g, Var("k"), R)]))>>)
 
 (* custom names of a list, each once, with the fx of the first option using it *)
 OwnFns(os) ==
